@@ -236,6 +236,16 @@ def atom_of(t, truth):
         op, a, b = t[1], t[2], t[3]
         if not truth:
             op = _NEG[op]
+        # a comparison of `(cond) as uN` with a constant is a statement about cond: decide it on the two values the cast can have
+        for x, c, flip in ((a, b, False), (b, a, True)):
+            if x[0] == "cast" and x[1] == "int2int" and c[0] == "int" and _is_bool_term(x[3]):
+                def cmp_(v):
+                    l, r = (c[1], v) if flip else (v, c[1])
+                    return {"Lt": l < r, "Le": l <= r, "Gt": l > r, "Ge": l >= r, "Eq": l == r, "Ne": l != r}[op]
+                t0, t1 = cmp_(0), cmp_(1)
+                if t0 == t1:
+                    return ("const", t0)
+                return atom_of(x[3], t1)
         if op == "Lt":
             return _succ_norm(("lt", a, b))
         if op == "Le":
@@ -246,6 +256,10 @@ def atom_of(t, truth):
             return _succ_norm(("le", b, a))
         return eq_atom("eq" if op == "Eq" else "ne", a, b)
     return ("holds" if truth else "nholds", t)
+
+
+def _is_bool_term(t):
+    return t[0] == "bool" or (t[0] == "bin" and t[1] in _NEG) or (t[0] == "un" and t[1] == "Not" and _is_bool_term(t[2]))
 
 
 def eq_atom(kind, a, b):
@@ -450,6 +464,12 @@ def _is_signed_num(path, name):
 
 def model_call(path, args):
     """-> None (no model) or list of (extra_atoms, value) alternatives"""
+    if path in ("core::option::Option::is_none", "core::option::Option::is_some", "core::result::Result::is_ok", "core::result::Result::is_err") \
+            and len(args) == 1 and args[0][0] == "ref":
+        # a test of the discriminant (Option: None = 0, Some = 1; Result: Ok = 0, Err = 1)
+        x = args[0][1]
+        zero_is_true = path.endswith(("is_none", "is_ok"))
+        return [((("is", x, 0),), ("bool", zero_is_true)), ((("is", x, 1),), ("bool", not zero_is_true))]
     if path in ("core::slice::<impl [T]>::len", "core::str::<impl str>::len"):
         return [((), mk_len(args[0]))]
     if path in ("core::slice::<impl [T]>::is_empty", "core::str::<impl str>::is_empty"):
